@@ -150,22 +150,29 @@ Theorem history_upstream_down_cache_constant : forall Q sc members es w,
   s_cache (w_st (fst (run Q sc members w es))) = s_cache (w_st w).
 Proof. exact history_upstream_down. Qed.
 
-(* Seed task (refresh_before given): the walker hands a (meta) tile to the workers iff the tile it examines is
-   missing or stale, and a meta tile handed over is fetched as a whole. *)
-Theorem seed_handles_iff_uncached : forall Q m ev c t,
-  seed_handles Q m ev c false false t = Some true <-> tm_is_cached Q m ev c t = Some false.
-Proof. exact seed_handles_uncached. Qed.
+(* Seed task with refresh_before (seeder.py TileWalker after the repair of finding C13-seed).  `wanted` = the tile is
+   missing or stale (with --skip-uncached: exists and is stale).  For every (meta) tile the walker examines, it hands
+   over exactly the wanted tiles among the tiles created together with it ... *)
+Theorem seed_hands_over_exactly_the_wanted_tiles : forall Q m ev skip c l h,
+  seed_select Q m ev c skip l = Some h ->
+  forall a, In a h <-> In a l /\ wanted Q m ev skip c a.
+Proof. exact seed_select_spec. Qed.
 
-Theorem seed_handled_meta_tile_refetched_partial : forall Q m ev sc members s main s' r,
-  m_meta m = true -> In main (members main) ->
-  seed_handles Q m ev (s_cache s) false false main = Some true ->
-  load_tile_coords Q m ev sc members s [main] = (s', r) ->
-  s_log s' = members main :: s_log s.
-Proof. exact seed_handled_refetched_lemma. Qed.
+(* ... so over a whole walk (any list of examined meta tiles, any upstream behaviour) that completes, every tile
+   that was missing or stale at the start and belongs to an examined meta tile is handed to a worker, unless an
+   earlier upstream request of the same walk already covered it ... *)
+Theorem seed_task_reaches_every_stale_tile : forall Q m ev sc members skip mains s a t,
+  In t mains -> In a (members t) -> wanted Q m ev skip (s_cache s) a ->
+  forall s' handed, seed_walk Q m ev sc members s skip mains = (s', handed, true) ->
+  (exists h, In h handed /\ In a h) \/
+  (exists new entry, s_log s' = new ++ s_log s /\ In entry new /\ In a entry).
+Proof. exact seed_walk_hands_over. Qed.
 
-(* _partial because the walker examines the main tile only: a stale member of a meta tile whose main tile is
-   fresh is NOT refreshed by a seed task (finding C13/seed-main-tile-only). *)
-Theorem seed_examines_main_tile_only :
-  exists Q m ev c main a,
-    In a [main; a] /\ tm_is_stale Q m ev c a = Some true /\ seed_handles Q m ev c false false main = Some false.
-Proof. exact seed_examines_main_tile_only_refuted. Qed.
+(* ... and the worker's request for a handed-over list issues an upstream request that covers the tile (or fails
+   with the upstream error, which the worker retries). *)
+Theorem seed_handed_tile_refetched : forall Q m ev sc members skip s t h a s' r,
+  seed_select Q m ev (s_cache s) skip (members t) = Some h -> In a h -> In a (members a) ->
+  load_tile_coords Q m ev sc members s h = (s', r) ->
+  exists new, s_log s' = new ++ s_log s /\ new <> [] /\
+    (r = Raised ESource \/ exists l entry, r = Served l /\ In entry new /\ In a entry).
+Proof. exact seed_handed_refetched. Qed.
